@@ -150,6 +150,9 @@ def run_cases(ctx, with_model=True, stop_first=False):
     # the device moved in place AFTER it was meshed (a sample scanned under a fixed source): the kernel is evaluated where the
     # edges are now
     cfgs.append(dict(dev="ring", tol=1e-3, a=0.3, b=0.6, B=0.5, moved=(7.0, -3.0)))
+    # a film that does not lie in the plane z = 0 (Layer.z0 != 0): the current sheet and the points where its potential is
+    # evaluated are both at z0, so the kernel distance is the in-plane distance whatever the height of the film
+    cfgs.append(dict(dev="ring", tol=1e-3, a=0.3, b=0.6, B=0.5, z0=0.7))
     # a field that is still being ramped while the steps are taken: the normal current then has a -dA/dt part, and the
     # screening source is the WHOLE stored sheet current
     cfgs.append(dict(dev="ring", tol=1e-3, a=0.3, b=0.6, B=0.8, ramped=True))
@@ -175,11 +178,14 @@ def run_cases(ctx, with_model=True, stop_first=False):
         else:
             ukw = dict(length_units=cfg["units"], scale={"nm": 1000.0, "mm": 1e-3}[cfg["units"]]) if cfg.get("units") else {}
             dev = zoo.make_device(cfg["dev"], ctx.rng, max_edge_length=1.0, lam=0.4, d=0.1, **ukw)  # small Lambda: strong screening
+        if cfg.get("z0") and not cfg["reuse"]:
+            dev.layer.z0 = cfg["z0"] * dev.layer.coherence_length
+            ctx.count("solves_on_a_film_off_the_plane_z0")
         if cfg.get("moved") and not cfg["reuse"]:
             dev.translate(dx=cfg["moved"][0] * dev.layer.coherence_length, dy=cfg["moved"][1] * dev.layer.coherence_length, inplace=True)
             ctx.count("solves_on_a_device_translated_in_place_after_meshing")
         prev = dev
-        out = os.path.join(str(ctx.work), f"c13_{cfg['dev']}_{cfg['tol']}_{int(cfg['reuse'])}_{cfg.get('units', 'um')}_{int(bool(cfg.get('moved')))}.h5")
+        out = os.path.join(str(ctx.work), f"c13_{cfg['dev']}_{cfg['tol']}_{int(cfg['reuse'])}_{cfg.get('units', 'um')}_{int(bool(cfg.get('moved')))}_{int(bool(cfg.get('z0')))}.h5")
         if os.path.exists(out):
             os.remove(out)
         opts = runs.options(solve_time=0.1, dt_init=1e-2, save_every=2, output_file=out, include_screening=True, screening_tolerance=cfg["tol"],
@@ -210,7 +216,7 @@ def run_cases(ctx, with_model=True, stop_first=False):
             sc_ = max(float(np.linalg.norm(A, axis=1).max()), 1e-300)
             mism = float(np.linalg.norm(A - ref, axis=1).max()) / sc_
             ctx.tol(f"self-consistency / tol (tol={cfg['tol']})", mism / cfg["tol"], 3.0)
-            ctx.case((cfg["dev"], cfg["tol"], cfg["a"], cfg["b"], cfg["reuse"], cfg.get("units", "um"), bool(cfg.get("moved")), bool(cfg.get("ramped")), bool(cfg.get("skip")), fr["step"]), nontrivial=bool(np.any(A)))
+            ctx.case((cfg["dev"], cfg["tol"], cfg["a"], cfg["b"], cfg["reuse"], cfg.get("units", "um"), bool(cfg.get("moved")), bool(cfg.get("ramped")), bool(cfg.get("skip")), bool(cfg.get("z0")), fr["step"]), nontrivial=bool(np.any(A)))
             ctx.count("frames_checked")
             if mism > 3.0 * cfg["tol"]:
                 fail("not-self-consistent" + (":reused-mesh" if cfg["reuse"] else ""), f"{'second solve on a shared mesh with other London length/thickness, ' if cfg['reuse'] else ''}step {fr['step']}: stored A differs from (mu0/4pi) sum K a / r of the stored currents by {mism:.2e} (tolerance {cfg['tol']})", step=fr["step"], mismatch=mism)
@@ -283,6 +289,25 @@ def run_cases(ctx, with_model=True, stop_first=False):
         if np.any(fr["data"]["induced_vector_potential"] != 0):
             ctx.fail("disabled-nonzero", f"screening disabled but A_induced != 0 at step {fr['step']}", dict(step=fr["step"]))
             first = first or dict(key="disabled-nonzero", what="A_induced != 0")
+    # screening disabled in a run CONTINUED from a screened solution: the induced potential of the seed belongs to the seed;
+    # a run without screening has none, at every recorded step and in the solution it returns
+    seed = tdgl.solve(dev, runs.options(solve_time=0.05, dt_init=1e-2, save_every=5, include_screening=True, screening_tolerance=1e-3), applied_vector_potential=0.5)
+    if np.any(np.asarray(seed.tdgl_data.induced_vector_potential) != 0):
+        out = os.path.join(str(ctx.work), "c13_off_seeded.h5")
+        sol = tdgl.solve(dev, runs.options(solve_time=0.03, dt_init=1e-2, save_every=1, output_file=out), applied_vector_potential=0.5, seed_solution=seed)
+        worst, at = 0.0, None
+        for fr in runs.parse_h5(sol.path)[0]:
+            ctx.case(("disabled-seeded", fr["step"]), nontrivial=True)
+            m_ = float(np.abs(fr["data"]["induced_vector_potential"]).max())
+            if m_ > worst:
+                worst, at = m_, fr["step"]
+        worst = max(worst, float(np.abs(np.asarray(sol.tdgl_data.induced_vector_potential)).max()))
+        ctx.count("screening_off_runs_continued_from_a_screened_seed")
+        if worst != 0:
+            rp = dict(step=at, max_abs_induced=worst, seed_max_abs_induced=float(np.abs(np.asarray(seed.tdgl_data.induced_vector_potential)).max()))
+            ctx.fail("disabled-nonzero:seeded-from-screened", f"screening disabled, run continued from a screened solution: the recorded induced vector potential is not zero "
+                     f"(max |A_induced| = {worst:.3e} at step {at}; the seed's is {rp['seed_max_abs_induced']:.3e})", rp)
+            first = first or dict(key="disabled-nonzero:seeded-from-screened", what="A_induced != 0 in a screening-off run continued from a screened seed", **rp)
     return first
 
 
